@@ -1,13 +1,17 @@
 package main
 
 import (
+	"crypto/sha1"
+	"encoding/hex"
 	"encoding/json"
 	"fmt"
 	"go/ast"
+	"go/constant"
 	"go/token"
 	"go/types"
 	"os"
 	"path/filepath"
+	"regexp"
 	"sort"
 	"strings"
 	"time"
@@ -40,15 +44,19 @@ type Obligation struct {
 
 // Ctx is the loaded program plus the obligations collected so far.
 type Ctx struct {
-	csIdx *callSiteIdx
-	Repo    string
-	Tier    string
-	Fset    *token.FileSet
-	Pkgs    []*packages.Package // module packages only
-	ByPath  map[string]*packages.Package
-	Prog    *ssa.Program
-	SSA     map[string]*ssa.Package
-	AllPkgs int
+	aliasNoted    map[*ssa.Function]bool
+	csIdx         *callSiteIdx
+	anchors       map[string]string
+	anchorsLoaded bool
+	anchorSeen    map[string]string
+	Repo          string
+	Tier          string
+	Fset          *token.FileSet
+	Pkgs          []*packages.Package // module packages only
+	ByPath        map[string]*packages.Package
+	Prog          *ssa.Program
+	SSA           map[string]*ssa.Package
+	AllPkgs       int
 
 	Obls      []Obligation
 	RuleStats map[string]*RuleStat
@@ -132,6 +140,8 @@ func Load(repo, tier string) (*Ctx, error) {
 	if len(c.Pkgs) < 10 {
 		return nil, fmt.Errorf("load: only %d module packages", len(c.Pkgs))
 	}
+	c.aliasNoted = map[*ssa.Function]bool{}
+	c.resolveRecordedAnchors()
 	return c, nil
 }
 
@@ -208,8 +218,237 @@ func (c *Ctx) analysed(fn string) { c.funcsAnalysed[fn] = true }
 
 // ---- anchors -------------------------------------------------------------
 
-// lookupFunc resolves a package-level function or a method "T.M" / "(*T).M" in a module package.
+// lookupFunc resolves a package-level function or a method "T.M" / "(*T).M" in a module package: by name, and —
+// when an unexported function or type was renamed — by the signature recorded for that anchor on the reference tree
+// (anchors.json), provided exactly one function of the package has that signature and is not itself another anchor.
 func (c *Ctx) lookupFunc(rel, name string) *ssa.Function {
+	if fn := c.lookupFuncByName(rel, name); fn != nil {
+		if c.anchorSeen != nil {
+			c.anchorSeen["func "+rel+"|"+name] = funcAnchorSig(fn)
+		}
+		return fn
+	}
+	want, ok := c.anchorRef()["func "+rel+"|"+name]
+	if !ok {
+		return nil
+	}
+	sp := c.ssapkg(rel)
+	if sp == nil {
+		return nil
+	}
+	// names that are anchors themselves and still resolve keep their own identity
+	taken := map[*ssa.Function]bool{}
+	for k := range c.anchorRef() {
+		if strings.HasPrefix(k, "func "+rel+"|") {
+			if f := c.lookupFuncByName(rel, strings.TrimPrefix(k, "func "+rel+"|")); f != nil {
+				taken[f] = true
+			}
+		}
+	}
+	wantSig := strings.SplitN(want, " ## ", 2)[0]
+	var cands, exact []*ssa.Function
+	for _, fn := range c.srcFuncs(rel) {
+		if fn.Parent() != nil || fn.Synthetic != "" || taken[fn] {
+			continue
+		}
+		sig := funcAnchorSig(fn)
+		if sig == want {
+			exact = append(exact, fn)
+		}
+		if strings.SplitN(sig, " ## ", 2)[0] == wantSig {
+			cands = append(cands, fn)
+		}
+	}
+	var hit *ssa.Function
+	switch {
+	case len(exact) == 1:
+		hit = exact[0] // same signature and same body fingerprint: a pure rename
+	case len(cands) == 1:
+		hit = cands[0] // the only function of the package with that signature
+	}
+	if hit != nil {
+		short := name
+		if i := strings.LastIndex(name, "."); i >= 0 {
+			short = name[i+1:]
+		}
+		nameAlias[hit] = short
+		if !c.aliasNoted[hit] {
+			c.aliasNoted[hit] = true
+			fmt.Printf("note: anchor %s.%s not found by name; resolved by its recorded signature to %s\n", rel, name, hit.String())
+		}
+		return hit
+	}
+	return nil
+}
+
+// nameAlias: functions that were resolved for a renamed anchor, with the name the rules know them by.
+var nameAlias = map[*ssa.Function]string{}
+
+// fnName is f.Name(), or the name the rules know f by when it was found through the renamed-anchor fallback.
+func fnName(f *ssa.Function) string {
+	if f == nil {
+		return ""
+	}
+	if a, ok := nameAlias[f]; ok {
+		return a
+	}
+	return f.Name()
+}
+
+// extraAnchors: module functions the rules recognise by name at call sites without resolving them as anchors
+// themselves; they are recorded in anchors.json too so that a rename is followed.
+var extraAnchors = [][2]string{
+	{"bql/table", "stringLess"}, {"bql/planner", "update"}, {"bql/planner", "simpleExist"}, {"bql/planner", "simpleFetch"},
+	{"bql/planner", "queryPlan.specifyClauseWithTable"}, {"bql/planner", "constructPlan.processConstructClause"},
+	{"bql/planner", "queryPlan.processClause"}, {"bql/planner", "queryPlan.processGraphPattern"}, {"bql/planner", "queryPlan.projectAndGroupBy"},
+	{"bql/planner", "queryPlan.orderBy"}, {"bql/planner", "queryPlan.having"}, {"bql/planner", "queryPlan.limit"},
+	{"bql/lexer", "lexPredicate"}, {"bql/lexer", "lexLiteral"}, {"bql/lexer", "lexToken"}, {"bql/lexer", "lexSpace"},
+	{"bql/planner", "addTriples"}, {"bql/planner", "drainChannel"},
+}
+
+// resolveRecordedAnchors looks every recorded anchor up once, so that renamed ones get their alias before any rule runs.
+func (c *Ctx) resolveRecordedAnchors() {
+	var ks []string
+	for k := range c.anchorRef() {
+		ks = append(ks, k)
+	}
+	sort.Strings(ks)
+	for _, k := range ks {
+		if strings.HasPrefix(k, "func ") {
+			parts := strings.SplitN(strings.TrimPrefix(k, "func "), "|", 2)
+			if len(parts) == 2 {
+				c.lookupFunc(parts[0], parts[1])
+			}
+		}
+	}
+	// types first resolve (possibly by shape); then renamed fields get their recorded names
+	for _, k := range ks {
+		if !strings.HasPrefix(k, "type ") {
+			continue
+		}
+		parts := strings.SplitN(strings.TrimPrefix(k, "type "), "|", 2)
+		if len(parts) != 2 {
+			continue
+		}
+		n := c.namedType(parts[0], parts[1])
+		if n == nil {
+			continue
+		}
+		st, ok := n.Underlying().(*types.Struct)
+		want := c.anchorRef()[k]
+		if !ok || !strings.HasPrefix(want, "struct{") {
+			continue
+		}
+		cur := typeAnchorSig(n)
+		if cur == want || typeShapeNoNames(cur) != typeShapeNoNames(want) {
+			continue
+		}
+		recorded := strings.Split(strings.TrimSuffix(strings.TrimPrefix(want, "struct{"), "}"), "; ")
+		if len(recorded) != st.NumFields() {
+			continue
+		}
+		for i, rf := range recorded {
+			name := rf
+			if j := strings.Index(rf, " "); j >= 0 {
+				name = rf[:j]
+			}
+			if f := st.Field(i); f.Name() != name {
+				fieldAlias[f] = name
+				fmt.Printf("note: field %s.%s of anchor type %s is known to the rules as %s\n", n.Obj().Name(), f.Name(), parts[1], name)
+			}
+		}
+	}
+}
+
+// funcAnchorSig: what identifies an anchor function besides its name — receiver kind and the full signature.
+func funcAnchorSig(fn *ssa.Function) string {
+	recv := ""
+	if r := fn.Signature.Recv(); r != nil {
+		recv = "method "
+		if _, isPtr := r.Type().(*types.Pointer); isPtr {
+			recv = "ptr-method "
+		}
+	}
+	anon := func(t *types.Tuple) *types.Tuple {
+		var vs []*types.Var
+		for i := 0; i < t.Len(); i++ {
+			vs = append(vs, types.NewVar(token.NoPos, nil, "", t.At(i).Type()))
+		}
+		return types.NewTuple(vs...)
+	}
+	sig := types.NewSignatureType(nil, nil, nil, anon(fn.Signature.Params()), anon(fn.Signature.Results()), fn.Signature.Variadic())
+	str := types.TypeString(sig, func(p *types.Package) string { return p.Path() })
+	// unexported named types of the function's own package are written by shape, so that renaming the type does not
+	// change the signature of the functions that mention it
+	if fn.Pkg != nil {
+		sc := fn.Pkg.Pkg.Scope()
+		for _, nm := range sc.Names() {
+			tn, ok := sc.Lookup(nm).(*types.TypeName)
+			if !ok || tn.IsAlias() || token.IsExported(nm) {
+				continue
+			}
+			full := fn.Pkg.Pkg.Path() + "." + nm
+			if !strings.Contains(str, full) {
+				continue
+			}
+			if n, ok := tn.Type().(*types.Named); ok {
+				h := sha1.Sum([]byte(typeAnchorSig(n)))
+				str = regexp.MustCompile(regexp.QuoteMeta(full)+`\b`).ReplaceAllString(str, fn.Pkg.Pkg.Path()+".#"+hex.EncodeToString(h[:4]))
+			}
+		}
+	}
+	return recv + str + " ## " + bodyFingerprint(fn)
+}
+
+// bodyFingerprint summarises a body by what a rename of module identifiers leaves unchanged: block and instruction
+// counts by kind, string constants, and the standard-library functions called.
+func bodyFingerprint(fn *ssa.Function) string {
+	kinds := map[string]int{}
+	var consts, libs []string
+	for _, b := range fn.Blocks {
+		for _, in := range b.Instrs {
+			kinds[strings.TrimPrefix(fmt.Sprintf("%T", in), "*ssa.")]++
+			var ops []*ssa.Value
+			for _, op := range in.Operands(ops) {
+				if k, ok := (*op).(*ssa.Const); ok && k.Value != nil && k.Value.Kind() == constant.String {
+					consts = append(consts, constant.StringVal(k.Value))
+				}
+			}
+			if cc := callCommon(in); cc != nil {
+				if f := cc.StaticCallee(); f != nil && f.Pkg != nil && !strings.HasPrefix(f.Pkg.Pkg.Path(), modPath) {
+					libs = append(libs, f.Pkg.Pkg.Path()+"."+f.Name())
+				}
+			}
+		}
+	}
+	var ks []string
+	for k, n := range kinds {
+		ks = append(ks, fmt.Sprintf("%s=%d", k, n))
+	}
+	sort.Strings(ks)
+	sort.Strings(consts)
+	sort.Strings(libs)
+	h := sha1.Sum([]byte(fmt.Sprintf("%d|%v|%q|%v", len(fn.Blocks), ks, consts, libs)))
+	return hex.EncodeToString(h[:6])
+}
+
+// anchorRef loads the recorded anchor signatures (VERIF_DIR/anchors.json; written by `bwcheck anchors`).
+func (c *Ctx) anchorRef() map[string]string {
+	if c.anchorsLoaded {
+		return c.anchors
+	}
+	c.anchorsLoaded = true
+	c.anchors = map[string]string{}
+	for _, dir := range []string{verifDir(), "/verif"} {
+		if b, err := os.ReadFile(filepath.Join(dir, "anchors.json")); err == nil {
+			json.Unmarshal(b, &c.anchors)
+			break
+		}
+	}
+	return c.anchors
+}
+
+func (c *Ctx) lookupFuncByName(rel, name string) *ssa.Function {
 	sp := c.ssapkg(rel)
 	if sp == nil {
 		return nil
@@ -259,12 +498,88 @@ func (c *Ctx) namedType(rel, name string) *types.Named {
 	if p == nil {
 		return nil
 	}
-	o := p.Types.Scope().Lookup(name)
-	if o == nil {
+	if o := p.Types.Scope().Lookup(name); o != nil {
+		n, _ := o.Type().(*types.Named)
+		if n != nil && c.anchorSeen != nil {
+			c.anchorSeen["type "+rel+"|"+name] = typeAnchorSig(n)
+		}
+		return n
+	}
+	// renamed type: the one named type of the package with the recorded shape that is not another anchor
+	want, ok := c.anchorRef()["type "+rel+"|"+name]
+	if !ok {
 		return nil
 	}
-	n, _ := o.Type().(*types.Named)
-	return n
+	var cands []*types.Named
+	for _, nm := range p.Types.Scope().Names() {
+		tn, ok := p.Types.Scope().Lookup(nm).(*types.TypeName)
+		if !ok || tn.IsAlias() {
+			continue
+		}
+		if _, isAnchor := c.anchorRef()["type "+rel+"|"+nm]; isAnchor {
+			continue
+		}
+		if n, ok := tn.Type().(*types.Named); ok && typeAnchorSig(n) == want {
+			cands = append(cands, n)
+		}
+	}
+	if len(cands) == 0 {
+		// the type and some of its fields renamed together: same field types in the same order
+		for _, nm := range p.Types.Scope().Names() {
+			tn, ok := p.Types.Scope().Lookup(nm).(*types.TypeName)
+			if !ok || tn.IsAlias() {
+				continue
+			}
+			if _, isAnchor := c.anchorRef()["type "+rel+"|"+nm]; isAnchor {
+				continue
+			}
+			if n, ok := tn.Type().(*types.Named); ok && strings.HasPrefix(want, "struct{") && typeShapeNoNames(typeAnchorSig(n)) == typeShapeNoNames(want) {
+				cands = append(cands, n)
+			}
+		}
+	}
+	if len(cands) == 1 {
+		c.infoNote("anchor type "+rel+"."+name, "not found by name; resolved by its recorded shape to %s", cands[0].Obj().Name())
+		return cands[0]
+	}
+	return nil
+}
+
+// typeAnchorSig: the underlying type with struct fields listed by name and type (order-insensitive).
+func typeAnchorSig(n *types.Named) string {
+	q := func(p *types.Package) string { return p.Path() }
+	st, ok := n.Underlying().(*types.Struct)
+	if !ok {
+		return types.TypeString(n.Underlying(), q)
+	}
+	var fs []string
+	for i := 0; i < st.NumFields(); i++ {
+		// self references are written without the type's own name
+		fs = append(fs, st.Field(i).Name()+" "+strings.ReplaceAll(types.TypeString(st.Field(i).Type(), q), n.Obj().Pkg().Path()+"."+n.Obj().Name(), "<self>"))
+	}
+	return "struct{" + strings.Join(fs, "; ") + "}"
+}
+
+// typeShapeNoNames: the field types in declaration order (what a renamed field leaves unchanged).
+func typeShapeNoNames(sig string) string {
+	if !strings.HasPrefix(sig, "struct{") {
+		return sig
+	}
+	var ts []string
+	for _, f := range strings.Split(strings.TrimSuffix(strings.TrimPrefix(sig, "struct{"), "}"), "; ") {
+		if i := strings.Index(f, " "); i >= 0 {
+			ts = append(ts, f[i+1:])
+		}
+	}
+	return "struct{" + strings.Join(ts, "; ") + "}"
+}
+
+// extraTypeAnchors: struct types whose field names the rules mention without resolving the type as an anchor.
+var extraTypeAnchors = [][2]string{
+	{"bql/planner", "queryPlan"}, {"bql/planner", "constructPlan"}, {"bql/semantic", "Statement"}, {"bql/semantic", "GraphClause"},
+	{"bql/semantic", "Projection"}, {"bql/lexer", "lexer"}, {"bql/grammar", "LLk"}, {"bql/grammar", "Parser"},
+	{"storage/memory", "memory"}, {"storage/memory", "memoryStore"}, {"storage/memory", "checker"},
+	{"storage/memoization", "graphMemoizer"}, {"storage/memoization", "storeMemoizer"}, {"bql/table", "Table"},
 }
 
 func (c *Ctx) mustNamed(rel, name string) *types.Named {
